@@ -20,6 +20,13 @@ CRAFTED = {
     "small.f90": "integer :: only_line\n",
     "incl2.f90": "program pi2\n  implicit none\n  integer :: a1\n  integer :: a2\n  integer :: a3\n  include 'small.f90'\nend program pi2\n",
     "incl.f90": "program pinc\n  include 'top.f90'\n  include \"nosuch.f90\"\nend program pinc\n",
+    # diagnostics whose word sits on a continuation line, further right than the first line is long
+    "contdiag.f90": "module cdm\n  implicit none\n  integer :: a\n  integer &\n    :: bbbbbbbbbbbbbbbbbbbbbbbbbbbbbbbbbbbbbbbb, a\n"
+                    "contains\n  subroutine s()\n    use &\n                         no_such_module_here\n    integer &\n"
+                    "       :: cccccccccccccccccccccccccc, a\n  end subroutine s\nend module cdm\n",
+    "lone_keyword.f90": "integer, p",
+    "mask_intrinsic.f90": "module mi\n  use iso_fortran_env\ncontains\n  subroutine s()\n    integer :: int32\n  end subroutine s\nend module mi\n",
+    "dotted_i.f90": "program pdi\n  character(2) :: s = \"\u0130\u0130\u0130\u0130\", zz\n  zz = s\nend program pdi\n",
     "odd.f90": "subroutine &\n  & s(a, &\n  b)\n  character(len=*) :: a, b ! tail\n  a = 'it''s' // \"q\" ; b = a\n  if (a == b) then ; end if\nend subroutine s\n!> doc\n\n",
 }
 
